@@ -4,6 +4,7 @@ import Pyunicorn.Lemmas.WhileSafe
 import Pyunicorn.Lemmas.Binary64
 import Pyunicorn.Lemmas.LineIdx
 import Pyunicorn.Lemmas.NsiIdx
+import Pyunicorn.Lemmas.AccessMi
 import Pyunicorn.Generated.StructC20
 import Pyunicorn.Generated.StructC20Pyx
 import Pyunicorn.Generated.StructC20Py
@@ -2031,3 +2032,168 @@ example : nsiBetwIdx 3 [1, 0, 0] [2] 3 3 [0] = none ∧ csrOK 3 [1, 0, 0] [2] 3 
     ∧ nsiBetwIdx 3 [1, 2, 1] [1, 0, 2, 1] 2 3 [0] = none := by decide +kernel
 
 end Pyunicorn.NsiIdx
+
+/-! ## Round 5c: the climate worker `_cython_calculate_mutual_information` over IEEE data, with the
+normalisation, from the statements of the current source -/
+namespace Pyunicorn.Access
+open Pyunicorn.Generated.StructC20Py
+
+/-- minimum and maximum of one array are ordered unless one of them is NaN -/
+theorem xrMin_le_xrMax (a : List XR) :
+    (xrMin a).isNan = true ∨ (xrMax a).isNan = true ∨ XR.le (xrMin a) (xrMax a) = true := by
+  cases a with
+  | nil => exact Or.inl xrMin_nil
+  | cons x t =>
+    rcases xrMin_le (x :: t) with hn | hl
+    · exact Or.inl hn
+    rcases xrMax_ge (x :: t) with hn | hg
+    · exact Or.inr (Or.inl hn)
+    exact Or.inr (Or.inr (XR.le_trans' (hl x (by simp)) (hg x (by simp))))
+
+/-- the worker after its own rejections, for any array `p` that reaches the range computation -/
+theorem miTail_safe (rnd : XR → XR)
+    (hmono : ∀ a b, XR.le a b = true → XR.le (rnd a) (rnd b) = true)
+    (hnan : rnd .nan = .nan) (hpos : ∀ s, s.notNeg = true → (rnd s).notNeg = true)
+    (R C : Nat) (nb : Int) (hnb : 1 ≤ nb) (hbig : nb < (2 : Int) ^ 31) (d : XData) (s : XR)
+    (hs : XR.recip (XR.sub (xrMax d.flatten) (xrMin d.flatten)) = some s) :
+    miKernelX (rnd s) (rnd (xrMin d.flatten)) R C nb (d.map fun row => row.map rnd) = .safe := by
+  have hd : (XR.sub (xrMax d.flatten) (xrMin d.flatten)).notNeg = true :=
+    XR.sub_notNeg _ _ (xrMin_le_xrMax d.flatten)
+  apply miKernelX_safe _ _ R C nb _ hnb hbig (hpos _ (XR.recip_notNeg hd hs))
+  rcases xrMin_le d.flatten with hn | hl
+  · left
+    cases hm : xrMin d.flatten <;> simp_all [XR.isNan]
+  · right
+    intro x hx
+    simp only [List.mem_flatten, List.mem_map] at hx
+    obtain ⟨l, ⟨row, hrow, rfl⟩, hx⟩ := hx
+    simp only [List.mem_map] at hx
+    obtain ⟨y, hy, rfl⟩ := hx
+    exact Or.inr (hmono _ _ (hl y (List.mem_flatten.2 ⟨row, hrow, hy⟩)))
+
+/-- the range terms, the scaling expression and the kernel-call arguments of the current source are
+the ones the model evaluates (static: a changed term breaks it) -/
+theorem mi_terms_generated :
+    (mi_range_min != "float(anomaly.min())" || mi_range_max != "float(anomaly.max())"
+      || mi_scaling != "1.0 / (range_max - range_min)"
+      || mi_call_args != ["to_cy(anomaly, FIELD)", "n_samples", "N", "n_bins", "scaling", "range_min"])
+    = false := by decide
+
+/-- **`MutualInfoClimateNetwork._cython_calculate_mutual_information` (behind
+`calculate_similarity_measure` / `mutual_information`) is safe or raises for every anomaly array of
+IEEE values** — NaN, `+inf`, `-inf`, finite in any mixture, every shape `(T, N)`, every
+`n_bins ≥ 1` (the public path fixes 32) — with the statements of the worker and of
+`Data.normalize_time_series_array`, the range terms, the scaling expression and the arguments of the
+kernel call all read off the current source (generated).  For **every** square-root function `sq`
+(so also one that underflows to 0 and lets `±inf` through the normalisation) and every conversion
+double → float `rnd` that is monotone in the extended order, keeps NaN and keeps "not negative"
+(rounding to nearest with overflow to `±inf` is: `rndBig_ok`).  Discharges round 5's "argued, not
+proved": the reason is not that infinities cannot reach the kernel but that `range_min` is the
+minimum of the very array handed to it. -/
+theorem miCallX_rejects_or_safe (sq rnd : XR → XR)
+    (hmono : ∀ a b, XR.le a b = true → XR.le (rnd a) (rnd b) = true)
+    (hnan : rnd .nan = .nan) (hpos : ∀ s, s.notNeg = true → (rnd s).notNeg = true)
+    (T N : Nat) (nb : Int) (hnb : 1 ≤ nb) (a : XData) :
+    miCallX mi_steps normalize_steps mi_range_min mi_range_max mi_scaling mi_call_args sq rnd T N nb a
+      ≠ .oob := by
+  unfold miCallX
+  split
+  · simp
+  split
+  · simp
+  rename_i hbig
+  have hprep : ∃ p, miPrepX mi_steps normalize_steps sq T N a = some p := ⟨_, rfl⟩
+  obtain ⟨p, hp⟩ := hprep
+  rw [hp]
+  simp only
+  split
+  · simp
+  rw [if_neg (by rw [mi_terms_generated]; simp)]
+  split
+  · simp
+  · rename_i s hs
+    rw [miTail_safe rnd hmono hnan hpos p.rows p.cols nb hnb (by omega) p.d s hs]
+    simp
+
+
+/-- the hypotheses on the conversion are satisfiable: keep finite values up to `big`, overflow beyond -/
+theorem rndBig_ok (big : Rat) (hb : 0 ≤ big) :
+    (∀ a b, XR.le a b = true → XR.le (rndBig big a) (rndBig big b) = true)
+    ∧ rndBig big .nan = .nan ∧ (∀ s, s.notNeg = true → (rndBig big s).notNeg = true) := by
+  refine ⟨?_, rfl, ?_⟩
+  · intro a b h
+    cases a <;> cases b <;> simp_all [XR.le, rndBig] <;> (repeat' split) <;> simp_all <;> grind
+  · intro s h
+    cases s <;> simp_all [XR.notNeg, rndBig] <;> (repeat' split) <;> simp_all <;> grind
+
+abbrev miX := miCallX mi_steps normalize_steps mi_range_min mi_range_max mi_scaling mi_call_args
+
+/-- non-vacuity and sharpness (`T = N = 2`, anomaly `[[0, +inf], [2, 1]]`: the column holding `+inf`
+normalises to NaN → 0, the other to `∓1`).  (1) safe with range `[-1, 1]`; (2) all NaN / inf: all
+zeros, ZeroDivisionError; (3) one sample: all zeros, raises; (4) a square root that underflows to 0:
+`∓inf` reach the kernel, `scaling = 1/inf = 0`, every rescaled value NaN — safe; (5) a `float` that
+overflows at 1/2: samples and `range_min` become `∓inf` — safe; (6) empty: raises; (7) without the
+NaN replacement (two statements of the normalisation): NaN range — safe; (8) a `range_min` of another
+form, (9) an unknown statement: `oob` = cannot evaluate; (10) `n_bins = 0` on the worker: `oob`
+(bin number −1; the hypothesis `1 ≤ n_bins` is needed). -/
+theorem miCallX_witness :
+    miX sqrtX (rndBig 1000) 2 2 32 [[.fin 0, .pinf], [.fin 2, .fin 1]] = .safe
+    ∧ miX sqrtX (rndBig 1000) 2 2 32 [[.nan, .pinf], [.ninf, .nan]] = .raise
+    ∧ miX sqrtX (rndBig 1000) 1 3 32 [[.fin 5, .pinf, .fin (-1)]] = .raise
+    ∧ miX (fun _ => .fin 0) (rndBig 1000) 2 2 32 [[.fin 0, .fin 1], [.fin 2, .fin 1]] = .safe
+    ∧ miX sqrtX (rndBig (1/2)) 2 2 32 [[.fin 0, .pinf], [.fin 2, .fin 1]] = .safe
+    ∧ miX sqrtX (rndBig 1000) 0 3 32 [] = .raise
+    ∧ miCallX mi_steps (normalize_steps.take 2) mi_range_min mi_range_max mi_scaling mi_call_args
+        sqrtX (rndBig 1000) 2 2 32 [[.fin 0, .pinf], [.fin 2, .fin 1]] = .safe
+    ∧ miCallX mi_steps normalize_steps "float(anomaly[0].min())" mi_range_max mi_scaling mi_call_args
+        sqrtX (rndBig 1000) 2 2 32 [[.fin 0, .pinf], [.fin 2, .fin 1]] = .oob
+    ∧ miCallX mi_steps ("time_series_array -= 1" :: normalize_steps) mi_range_min mi_range_max
+        mi_scaling mi_call_args sqrtX (rndBig 1000) 2 2 32 [[.fin 0, .pinf], [.fin 2, .fin 1]] = .oob
+    ∧ miX sqrtX (rndBig 1000) 2 2 0 [[.fin 0, .pinf], [.fin 2, .fin 1]] = .oob := by
+  decide +kernel
+
+example : (miRangeX mi_steps normalize_steps sqrtX 2 2 [[.fin 0, .pinf], [.fin 2, .fin 1]])
+    = some ([[.fin (-1), .fin 1], [.fin 0, .fin 0]], .fin (-1), .fin 1, some (.fin (1/2))) := by
+  decide +kernel
+/-- the statements of `Data.normalize_time_series_array` in the current source are the three the
+lemmas of `Lemmas/AccessMi.lean` speak of (static: an edited statement breaks it) -/
+theorem normalize_steps_generated : normalize_steps = normalizeSteps3 := by decide
+
+/-- what the statements of the current worker compute before the range is taken: the normalised
+array, transposed, with shape `(N, T)` -/
+theorem miPrepX_generated (sq : XR → XR) (T N : Nat) (a : XData) :
+    miPrepX mi_steps normalize_steps sq T N a
+      = some ⟨tabX N T fun i k =>
+          (zeroNanX T N (scaleX sq T N (centreX T N (tabX T N a.at)))).at k i, N, T⟩ := rfl
+
+/-- **Round 5's "argued" claim as a theorem: a column (node) of the anomaly that holds `+inf`, `-inf`
+or NaN at any time reaches the range computation and the kernel as a row of zeros**, for every shape
+and every square root that maps NaN to NaN.  (So infinities in the *input* never reach the kernel;
+`miCallX_rejects_or_safe` does not need this — it also covers infinities *produced* by the
+normalisation when the mean of squares underflows.) -/
+theorem miPrepX_nonfinite_column_zero (sq : XR → XR) (hsq : sq .nan = .nan) (T N : Nat) (a : XData)
+    {j : Nat} (hj : j < N) (h : ∃ t, t < T ∧ (a.at t j).isFin = false) {t : Nat} (ht : t < T)
+    (p : Shaped) (hp : miPrepX mi_steps normalize_steps sq T N a = some p) :
+    p.rows = N ∧ p.cols = T ∧ p.d.at j t = .fin 0 := by
+  rw [miPrepX_generated] at hp
+  cases hp
+  refine ⟨rfl, rfl, ?_⟩
+  show (tabX N T _).at j t = _
+  rw [tabX_at _ _ _ hj ht]
+  apply normalize_nonfinite_column sq hsq T N _ hj _ ht
+  obtain ⟨t0, ht0, hf⟩ := h
+  exact ⟨t0, ht0, by rw [tabX_at _ _ _ ht0 hj]; exact hf⟩
+
+/-- no NaN reaches the range computation (the last statement of the normalisation) -/
+theorem miPrepX_no_nan (sq : XR → XR) (T N : Nat) (a : XData) {j t : Nat} (hj : j < N) (ht : t < T)
+    (p : Shaped) (hp : miPrepX mi_steps normalize_steps sq T N a = some p) :
+    (p.d.at j t).isNan = false := by
+  rw [miPrepX_generated] at hp
+  cases hp
+  show ((tabX N T _).at j t).isNan = false
+  rw [tabX_at _ _ _ hj ht]
+  exact zeroNanX_no_nan T N _ ht hj
+
+example : ∃ p, miPrepX mi_steps normalize_steps sqrtX 2 2 [[.fin 0, .pinf], [.fin 2, .fin 1]] = some p
+    ∧ p.d = [[.fin (-1), .fin 1], [.fin 0, .fin 0]] := ⟨_, rfl, by decide +kernel⟩
+end Pyunicorn.Access
